@@ -24,6 +24,7 @@ Proof. intros. unfold shr. apply Z.shiftr_div_pow2; assumption. Qed.
 Lemma lowbits_mod x k : 0 <= k -> lowbits x k = x mod 2 ^ k.
 Proof. intros. unfold lowbits. apply Z.land_ones; assumption. Qed.
 
+(** uint64 truncation is the identity below 2^64 *)
 Lemma u64_small x : 0 <= x < two64 -> u64 x = x.
 Proof. intros. rewrite u64_mod. apply Z.mod_small; assumption. Qed.
 
@@ -98,6 +99,7 @@ Definition tables_okb (T : fp_tables) : bool :=
 
 Definition tables_ok (T : fp_tables) : Prop := tables_okb T = true.
 
+(** the row checker holds row by row (powers of ten) *)
 Lemma pow10_rows_ok_nth rows : forall q0 (i : nat) d,
   pow10_rows_ok q0 rows = true -> (i < length rows)%nat ->
   pow10_row_ok (q0 + Z.of_nat i) (nth i rows d) = true.
@@ -109,6 +111,7 @@ Proof.
     apply IH; [exact H2|simpl in Hi; lia].
 Qed.
 
+(** the row checker holds row by row (leftcheats) *)
 Lemma cheat_rows_ok_nth rows : forall k0 (i : nat) d,
   cheat_rows_ok k0 rows = true -> (i < length rows)%nat ->
   cheat_row_ok (k0 + Z.of_nat i) (nth i rows d) = true.
@@ -120,6 +123,7 @@ Proof.
     apply IH; [exact H2|simpl in Hi; lia].
 Qed.
 
+(** the row checker holds row by row (powtab) *)
 Lemma powtab_rows_ok_nth rows : forall k0 (i : nat) d,
   powtab_rows_ok k0 rows = true -> (i < length rows)%nat ->
   powtab_row_ok (k0 + Z.of_nat i) (nth i rows d) = true.
@@ -131,6 +135,7 @@ Proof.
     apply IH; [exact H2|simpl in Hi; lia].
 Qed.
 
+(** boolean list equality is equality *)
 Lemma zlist_eqb_eq a : forall b, zlist_eqb a b = true -> a = b.
 Proof.
   induction a as [|x a IH]; destruct b as [|y b]; simpl; intros H; try discriminate; [reflexivity|].
@@ -153,6 +158,7 @@ Record tables_facts (T : fp_tables) : Prop := {
   tf_bias : t_bias T = -1023
 }.
 
+(** tables_ok unpacked into its components *)
 Lemma tables_ok_facts T : tables_ok T -> tables_facts T.
 Proof.
   unfold tables_ok, tables_okb. intros H.
